@@ -305,7 +305,7 @@ func (e *Ev) eval(n *Node, sc *Scope) Res {
 	}
 	e.depth++
 	defer func() { e.depth-- }()
-	if e.depth > 200 {
+	if e.depth > 40000 {
 		return unspecR("too-deep")
 	}
 	switch n.K {
@@ -373,6 +373,8 @@ func (e *Ev) eval(n *Node, sc *Scope) Res {
 		return e.evalCall(n, sc)
 	case KTmpl:
 		return e.evalTmpl(n, sc)
+	case KParen:
+		return e.eval(n.A, sc)
 	}
 	return unspecR("unknown-node-kind")
 }
